@@ -20,6 +20,7 @@ func init() {
 			ruleWriterTo(c, r, "")
 			ruleReader2ChunkEOF(c, r, "")
 			ruleBlockSource(c, r, "")
+			ruleReopenState(c, r, "")
 			// members of a chain share nothing but the source: no package-level state in the reader
 			ruleGlobals(c, r, "")
 			ruleNondeterminism(c, r, "")
